@@ -296,6 +296,25 @@ func (c *cliFront) plan(o *obj, st Step) (*cliCall, string) {
 			ret["prof"] = prof
 			return true
 		}}, ""
+	case "ProfileOnly":
+		ch := []byte{byte(ai(a, "c"))}
+		if !needsAlign() || !printable(ch) || ch[0] == '*' {
+			return nil, "chars" // '*' is the flag's "every character"
+		}
+		return &cliCall{argv: []string{"stats", "char", "--per-sites", "--only=" + string(ch)}, query: true, ret: func(stdout, stderr string, ret map[string]interface{}) bool {
+			// every line is logged as printed; the specification says what a table of one column looks like
+			lines := strings.Split(strings.TrimRight(stdout, "\n"), "\n")
+			tbl := [][][]int{}
+			for _, l := range lines {
+				row := [][]int{}
+				for _, f := range strings.Split(l, "\t") {
+					row = append(row, s2i(f))
+				}
+				tbl = append(tbl, row)
+			}
+			ret["table"] = tbl
+			return true
+		}}, ""
 	case "MaxCharStats":
 		if !needsAlign() {
 			return nil, "bag"
